@@ -15,6 +15,13 @@ def intSpecOf? (name : String) : Option IntSpec :=
   | some (n, s, b, z) => some ⟨n, s, b, z⟩
   | none => none
 
+def litKindOf? (k : String) : Option SynTypes.LitKind :=
+  if !(Generated.litKinds.contains k) then none else
+  match k with
+  | "Int" => some .int | "Float" => some .float | "Str" => some .str | "Byte" => some .byte
+  | "ByteStr" => some .byteStr | "Char" => some .char | "Bool" => some .bool | "Verbatim" => some .verbatim
+  | _ => none
+
 partial def tyOf? : Sexp → Option Ty
   | .atom "unit" => some .unit
   | .atom "bool" => some .bool
@@ -36,6 +43,36 @@ partial def tyOf? : Sexp → Option Ty
   | .list [.atom "spanned", t] => do pure (.spanned (← tyOf? t))
   | .list [.atom "withorig", t] => do pure (.withOrig (← tyOf? t))
   | .list [.atom "probe", m, f] => do pure (.probe (← m.asNat?) (← f.asBool?))
+  | .atom "syn-expr" => some .synExpr
+  | .atom "syn-path" => some .synPath
+  | .atom "syn-ident" => some .synIdent
+  | .atom "ident-string" => some .identString
+  | .list [.atom "syn-expr-ty", .str v] => (match v with
+      | "ExprArray" => some (.synExprTy .array)
+      | "ExprPath" => some (.synExprTy .path)
+      | "ExprRange" => some (.synExprTy .range)
+      | _ => none)
+  | .list [.atom "syn-parse", .str k] => if Generated.synParseTypes.contains k then some (.synParse k) else none
+  | .atom "where-preds" => some .wherePreds
+  | .atom "rename-rule" => some .renameRule
+  | .list [.atom "punctuated", .str k] => some (.punctuated k)
+  | .atom "lit" => some .lit
+  | .list [.atom "lit-kind", .str k] => do pure (.litKind (← litKindOf? k))
+  | .list [.atom "vec-lit", .str k] => do pure (.vecLit (← litKindOf? k))
+  | .list [.atom "num-array", .str n] => do
+      if Generated.numericArrays.contains n then pure (.numArray (← intSpecOf? n)) else none
+  | .atom "syn-meta" => some .synMeta
+  | .atom "ignored" => some .ignored
+  | .atom "path-list" => some .pathList
+  | .atom "callable" => some .callable
+  | .list [.atom "map", .str kind, .str key, t] => do
+      if !(Generated.mapInstances.contains (kind, key)) then none
+      let k ← (match key with
+        | "String" => some Maps.KeyKind.string
+        | "syn::Ident" => some Maps.KeyKind.ident
+        | "syn::Path" => some Maps.KeyKind.path
+        | _ => none)
+      pure (.map k (kind == "btree_map") (← tyOf? t))
   | _ => none
 
 def optNat? : Sexp → Option (Option Nat)
@@ -51,6 +88,11 @@ def oracleOf? : Sexp → Option Oracle
             o := { o with floats := (← w.asNat?, s, ← optNat? res) :: o.floats }
         | .list [.atom "syn", .str k, .str s, res] =>
             o := { o with syns := (k, s, ← optStr? res) :: o.syns }
+        | .list [.atom "arr", .str s, res] =>
+            let e ← (match res with
+              | .atom "none" => some none
+              | x => (exprOf? x).map some)
+            o := { o with arrs := (s, e) :: o.arrs }
         | _ => none
       pure o
   | _ => none
